@@ -4,6 +4,9 @@
  * unsynchronised access to shared memory inside the library is reported whatever the schedule.
  *
  * usage: threads <nthreads> <rounds> <seed> < addresses(hex, one per line)
+ * THREADS_COLD=1: no library call is made before the threads start (they are released together by a barrier and
+ *   their outcomes are compared with a sequential pass made afterwards), so that first-use initialisation inside
+ *   the library — a lazily built table, a cached pointer — happens concurrently.
  * exit 0 = all outcomes equal and no race report (TSan makes the exit status 66 on a report). */
 #define _GNU_SOURCE
 #include <stdio.h>
@@ -51,6 +54,32 @@ static void run_config (int cfg, outcome_t *out, unsigned *rs, int perturb)
 
 static long mismatches;
 static pthread_mutex_t mu = PTHREAD_MUTEX_INITIALIZER;
+static int cold; static pthread_barrier_t bar; static outcome_t **kept;
+
+static void report (long t, int cfg, int i, const outcome_t *got)
+{
+    pthread_mutex_lock (&mu);
+    if (mismatches < 5) {
+        printf ("MISMATCH thread=%ld mode=%d tld=%d address=", t, cfg / 2, cfg % 2);
+        for (size_t k = 0; k < alen[i]; k++) printf ("%02x", (unsigned char) addr[i][k]);
+        printf (" got ret=%d err=%d rc=%d flags=%d expected ret=%d err=%d rc=%d flags=%d\n", got->ret, got->err, got->rc, got->flags,
+                ref[cfg * na + i].ret, ref[cfg * na + i].err, ref[cfg * na + i].rc, ref[cfg * na + i].flags);
+    }
+    mismatches++;
+    pthread_mutex_unlock (&mu);
+}
+
+static void *cold_worker (void *arg)
+{
+    long t = (long) arg; unsigned rs = seed * 7919u + (unsigned) t;
+    kept[t] = calloc ((size_t) (8 * na), sizeof (outcome_t));
+    pthread_barrier_wait (&bar);
+    for (int c = 0; c < 8; c++) {
+        int cfg = (c + (int) t) % 8;
+        run_config (cfg, kept[t] + cfg * na, &rs, 0);
+    }
+    return NULL;
+}
 
 static void *worker (void *arg)
 {
@@ -90,9 +119,23 @@ int main (int argc, char **argv)
     }
     ref = calloc ((size_t) (8 * na), sizeof (outcome_t));
     unsigned rs = 1;
-    for (int c = 0; c < 8; c++) run_config (c, ref + c * na, &rs, 0);      /* the sequential outcomes */
     pthread_t th[64];
     if (nthreads > 64) nthreads = 64;
+    cold = getenv ("THREADS_COLD") != NULL;
+    if (cold) {
+        kept = calloc (64, sizeof *kept);
+        pthread_barrier_init (&bar, NULL, (unsigned) nthreads);
+        for (long t = 0; t < nthreads; t++) pthread_create (&th[t], NULL, cold_worker, (void *) t);
+        for (long t = 0; t < nthreads; t++) pthread_join (th[t], NULL);
+        for (int c = 0; c < 8; c++) run_config (c, ref + c * na, &rs, 0);  /* the sequential outcomes, afterwards */
+        for (long t = 0; t < nthreads; t++)
+            for (int c = 0; c < 8; c++)
+                for (int i = 0; i < na; i++)
+                    if (memcmp (&kept[t][c * na + i], &ref[c * na + i], sizeof (outcome_t)) != 0) report (t, c, i, &kept[t][c * na + i]);
+        printf ("cold threads=%d addresses=%d validations=%ld mismatches=%ld\n", nthreads, na, (long) nthreads * 8 * na, mismatches);
+        return mismatches ? 1 : 0;
+    }
+    for (int c = 0; c < 8; c++) run_config (c, ref + c * na, &rs, 0);      /* the sequential outcomes */
     for (long t = 0; t < nthreads; t++) pthread_create (&th[t], NULL, worker, (void *) t);
     for (long t = 0; t < nthreads; t++) pthread_join (th[t], NULL);
     printf ("threads=%d rounds=%d addresses=%d validations=%ld mismatches=%ld\n", nthreads, rounds, na, (long) nthreads * rounds * 8 * na, mismatches);
